@@ -9,6 +9,7 @@ package collection
 
 import (
 	"fmt"
+	"strings"
 	"testing"
 	"time"
 
@@ -20,15 +21,27 @@ import (
 func TestVerifC16RealTime(t *testing.T) {
 	logx.Disable()
 	timex.VerifClockOff()
-	ops := []string{"skipped-in-quick-tier"}
+	ops := []string{"timex-now-follows-the-wall-clock"}
 	if verifh.Thorough() {
-		ops = []string{"cache-real-wheel-expires", "rollingwindow-real-clock"}
+		ops = []string{"timex-now-follows-the-wall-clock", "cache-real-wheel-expires", "rollingwindow-real-clock"}
 	}
 	secs := []verifh.Section{{Cfg: "kind=c16-realtime", Ops: ops}}
 	verifh.Run(t, secs, func(cfg verifh.Cfg) (func(op []string) string, func()) {
 		return func(op []string) string {
 			switch op[0] {
-			case "skipped-in-quick-tier":
+			case "timex-now-follows-the-wall-clock":
+				// Characterisation, not a requirement: timex.Now() is time.Since(initTime) with
+				// initTime = time.Now().AddDate(-1,-1,-1). AddDate rebuilds the value with time.Date, which has no
+				// monotonic reading (a Time with one prints " m=±…"), so time.Since falls back to the wall clock and
+				// timex.Now() steps back when the system time does. The RollingWindow theorems therefore state
+				// "timex.Now() non-decreasing" as an assumption. The probe checks the Go runtime behaviour this rests on (a fix of initTime does not affect it): the
+				// probe itself works (a fresh time.Now() does carry a monotonic reading).
+				if !strings.Contains(time.Now().String(), " m=") {
+					return "time.Now() carries no monotonic reading: the probe is void"
+				}
+				if strings.Contains(time.Now().AddDate(-1, -1, -1).String(), " m=") {
+					return "AddDate kept the monotonic reading: update the RollingWindow assumption text"
+				}
 			case "cache-real-wheel-expires":
 				c, err := NewCache(time.Second, WithLimit(2))
 				if err != nil {
